@@ -9,15 +9,15 @@ OUT=/verif/seeded/$ID
 rm -rf $WT; git -C /repo worktree prune
 git -C /repo worktree add -q --detach $WT HEAD || exit 2
 cd $WT
-SRCS=$(find src -name '*.c' | grep -v lib_advanced)
+SRCS=$(find src -name '*.c' | grep -v lib_advanced | grep -v "${DEMO_EXCLUDE:-@@none@@}")
 cmake -S . -B _build -G Ninja >/dev/null 2>&1 && cmake --build _build >/dev/null 2>&1   # generates of_build_config.h too
-gcc -O1 -g -w -DOPENFEC_LITTLE_ENDIAN -DNDEBUG -I src $DEMO $SRCS -lm -o /tmp/mt-$ID-demo-orig || { echo "demo does not compile on original"; exit 2; }
-timeout 600 /tmp/mt-$ID-demo-orig >/tmp/mt-$ID-orig.out 2>&1; RC_ORIG=$?
-git apply $PATCH || { echo "PATCH DOES NOT APPLY to current HEAD"; git -C /repo worktree remove --force $WT; exit 3; }
+gcc -O1 -g -w ${DEMO_CFLAGS:-} -DOPENFEC_LITTLE_ENDIAN -DNDEBUG -I . -I src $DEMO $SRCS -lm -o /tmp/mt-$ID-demo-orig || { echo "demo does not compile on original"; exit 2; }
+ASAN_OPTIONS=detect_leaks=1 timeout 600 /tmp/mt-$ID-demo-orig ${DEMO_ARGS:-} >/tmp/mt-$ID-orig.out 2>&1; RC_ORIG=$?
+git apply $PATCH 2>/dev/null || git apply -3 $PATCH || { echo "PATCH DOES NOT APPLY to current HEAD"; git -C /repo worktree remove --force $WT; exit 3; }
 cmake --build _build >/tmp/mt-$ID-build.log 2>&1 || { echo "does not build"; exit 2; }
 TESTS=$(ctest --test-dir _build -j8 --timeout 900 2>&1 | grep "tests passed" )
-gcc -O1 -g -w -DOPENFEC_LITTLE_ENDIAN -DNDEBUG -I src $DEMO $SRCS -lm -o /tmp/mt-$ID-demo-mut || { echo "demo does not compile on mutant"; exit 2; }
-timeout 600 /tmp/mt-$ID-demo-mut >/tmp/mt-$ID-mut.out 2>&1; RC_MUT=$?
+gcc -O1 -g -w ${DEMO_CFLAGS:-} -DOPENFEC_LITTLE_ENDIAN -DNDEBUG -I . -I src $DEMO $SRCS -lm -o /tmp/mt-$ID-demo-mut || { echo "demo does not compile on mutant"; exit 2; }
+ASAN_OPTIONS=detect_leaks=1 timeout 600 /tmp/mt-$ID-demo-mut ${DEMO_ARGS:-} >/tmp/mt-$ID-mut.out 2>&1; RC_MUT=$?
 echo "[$ID] demo original rc=$RC_ORIG, with change rc=$RC_MUT, tests: $TESTS"
 OK=0
 if [ $RC_ORIG -eq 0 ] && [ $RC_MUT -ne 0 ] && echo "$TESTS" | grep -q "100% tests passed, 0 tests failed out of 265"; then OK=1; fi
